@@ -59,12 +59,13 @@ func runC06(c *Ctx) {
 		cf := f.CFG()
 		recv := eng.TypeName(info.Defs[f.Decl.Recv.List[0].Names[0]].Type())
 		key, value := paramObj(f, "key"), paramObj(f, "value")
-		pl := f.Calls("(*" + recv + ").putLocal")
+		storePats := []string{"(*" + recv + ").putLocal", "(*dht/records.ValueStore).Put"}
+		pl := f.Calls(storePats...)
 		gcp := f.Calls("(*" + recv + ").GetClosestPeers")
 		if !c.Check(K(f.Name, "shape"), f.Pos(), len(pl) == 1 && len(gcp) == 1, "PutValue stores locally once and looks up once", "found "+itoa(len(pl))+" / "+itoa(len(gcp))) {
 			continue
 		}
-		g, _ := cf.Guarded(cf.LocOf(gcp[0]), func(ft eng.Fact) bool { return ft.ErrOf(true, "(*"+recv+").putLocal") })
+		g, _ := cf.Guarded(cf.LocOf(gcp[0]), func(ft eng.Fact) bool { return ft.ErrOf(true, storePats...) })
 		c.Check(K(f.Name, "lookup only after successful local store"), gcp[0].Pos(), g, "the network phase starts only after the record was stored locally", "GetClosestPeers not on the nil-error edge of putLocal")
 		rec := eng.ObjOf(info, pl[0].Args[2])
 		okRec := false
